@@ -866,7 +866,27 @@ FLT_SPECIAL = [0x00000000, 0x80000000, 0x00000001, 0x80000001, 0x7f7fffff, 0xff7
 FLT_NONFINITE = [0x7f800000, 0xff800000]                   # +inf, -inf (a NaN compares unequal to itself: "the same state" is not defined for it)
 UNKNOWN_SYMS = [b"zzz", b"none", b"Sine"]                    # in no generated map (SYMS are lower case words)
 
-def gen_incoming(rng, p, exotic=0.0):
+def near_default_floats(p, k=0):
+    """bit patterns next to the default of element k of a float port, inside the declared range"""
+    if getattr(p, "default", None) is None:
+        return []
+    d = p.default[min(k, len(p.default) - 1)]
+    if fnan(d):
+        return []
+    cands = []
+    if d & 0x7fffffff == 0:
+        for m in (0x00800000, 0x00000001, 0x00000002, f2b(1e-8)):
+            cands += [m, m | 0x80000000]
+    else:
+        for dlt in (1, 2, -1, -2):
+            b = d + dlt
+            if (b ^ d) & 0x80000000 == 0 and (b & 0x7f800000) != 0x7f800000 and (b & 0x7fffffff) != 0:
+                cands.append(b)
+    lo = None if p.min is None else b2f(p.min)
+    hi = None if p.max is None else b2f(p.max)
+    return [b for b in cands if (lo is None or b2f(b) >= lo) and (hi is None or b2f(b) <= hi)]
+
+def gen_incoming(rng, p, exotic=0.0, k=0):
     """(tag, value) of a random parameter message for one element of p.
     exotic > 0 (C12 only): with that probability a float port is sent a non-finite value and a scalar option
     port a symbol that is not in its map - legal messages whose states the savefile does not carry
@@ -893,6 +913,12 @@ def gen_incoming(rng, p, exotic=0.0):
         return ("i", max(-2147483648, min(2147483647, v)))
     if ek == "f":
         r = rng.random()
+        near = near_default_floats(p, k) if r < 0.25 else []
+        if near:
+            # a state that differs from the default by next to nothing: one and two units in the last place,
+            # around 0.0 the smallest normal, a denormal and 1e-8 (a comparison with a tolerance instead of
+            # == would not save the parameter)
+            return ("f", rng.choice(near))
         if r < 0.2:
             return ("f", rng.choice(FLT_SPECIAL))
         if r < 0.5:
@@ -983,7 +1009,7 @@ def gen_ops(rng, ref, nops, bias_guards=True, focus=False, exotic=0.0):
             i = rng.randrange(len(flat))
         p = flat[i].leaf
         k = rng.randrange(p.n) if p.is_array() else 0
-        v = gen_incoming(rng, p, exotic)
+        v = gen_incoming(rng, p, exotic, k)
         if n_op < n_on and plan and v[0] in ("T", "F"):
             v = ("T", None)
         if flat[i].sel is None and i in sels and v[0] in ("i", "c") and rng.random() < 0.7:
